@@ -3,6 +3,8 @@ package c12
 import (
 	"fmt"
 	"strings"
+
+	"verif/internal/reflds"
 )
 
 // raw-bytes parsers: all byte strings of length <= 3 in both tiers
@@ -93,10 +95,11 @@ func (r *runner) section1(co *corpusT) {
 	own := map[string]byte{
 		"document.NewDG1": 0x61, "document.NewDG2": 0x75, "document.NewDG7": 0x67, "document.NewDG11": 0x6B, "document.NewDG12": 0x6C, "document.NewDG13": 0x6D,
 		"document.NewDG14": 0x6E, "document.NewDG15": 0x6F, "document.NewDG16": 0x70, "document.NewCOM": 0x60, "document.NewSOD": 0x77,
-		"document.NewCardAccess": 0x03, "document.NewCardSecurity": 0xA3, "document.NewEFDIR": 0x61, "document.DecodeSecurityInfos": 0x03,
+		"document.NewCardAccess": 0x03, "document.NewCardSecurity": 0xA3, "document.NewEFDIR": 0x61,
 		"tlv.Decode+String": 0x21, "iso7816.SM.Decode/3DES": 0x90,
 	}
 	if c.Thorough() {
+		own["document.DecodeSecurityInfos"] = 0x03
 		own["tlv.Unwrap"], own["tlv.DecodeEncode"], own["iso7816.SM.Decode/AES128"], own["document.Document.NewDG"] = 0x77, 0x21, 0x90, 0x6E
 	}
 	var names []string
@@ -144,12 +147,63 @@ func positions(n, limit int) (ps []int, stride int) {
 		return ps, 1
 	}
 	stride = (n + limit - 1) / limit
+	head := min(64, limit/4)
 	for i := 0; i < n; i++ {
-		if i < 64 || i%stride == 0 {
+		if i < head || i%stride == 0 {
 			ps = append(ps, i)
 		}
 	}
 	return ps, stride
+}
+
+// sectionGenuine: every well-formed file of the reflds enumeration (all 14 kinds, every field-subset / length-form /
+// security-info-subset shape) at its constructor, at json.Marshal, at tlv String(), and onward where a pipeline exists.
+func (r *runner) sectionGenuine(co *corpusT) {
+	c := r.c
+	sec := "2a genuine file enumeration"
+	kinds := append(append([]reflds.Kind{}, reflds.Kinds...), reflds.KDIR)
+	total := 0
+	for _, k := range kinds {
+		ctor := mustEP(ctorOfKind[k])
+		js := mustEP("json(" + ctorOfKind[k] + ")")
+		str := mustEP("tlv.Decode+String")
+		var onward []*EP
+		switch k {
+		case reflds.KDG14:
+			onward = []*EP{mustEP("chipauth.VerifyEvidence/file:dg14[ca]"), mustEP("passiveauth.PassiveAuth/file:dg14[rich]")}
+		case reflds.KCardAccess:
+			onward = []*EP{mustEP("passiveauth.PassiveAuth/file:cardAccess[rich]")}
+		case reflds.KCardSecurity:
+			onward = []*EP{mustEP("pace.VerifyEvidence/file:cardSecurity[cam]")}
+		case reflds.KDG15:
+			onward = []*EP{mustEP("activeauth.VerifyEvidence/file:dg15[aarsa]"), mustEP("activeauth.VerifyEvidence/file:dg15[aaec]")}
+		case reflds.KDG1, reflds.KDG11, reflds.KDG12:
+			if c.Thorough() {
+				onward = []*EP{mustEP("passiveauth.PassiveAuth/file:" + fileOfKind[k] + "[rich]")} // Summary() over every name / date / field shape
+			}
+		}
+		n := 0
+		reflds.Enumerate(k, c.Thorough(), func(f reflds.File) {
+			n++
+			if !c.Mine() || c.Expired() {
+				return
+			}
+			cl := "genuine:" + string(k)
+			r.doClass(sec, ctor, f.Bytes, cl)
+			r.doClass(sec, js, f.Bytes, cl)
+			if len(f.Bytes) <= 4096 {
+				r.doClass(sec, str, f.Bytes, cl)
+			}
+			for _, ep := range onward {
+				r.doClass(sec, ep, f.Bytes, cl)
+			}
+		})
+		total += n
+	}
+	if c.Expired() {
+		c.SecNotExhaustive(sec, "deadline")
+	}
+	c.SecBound(sec, fmt.Sprintf("all %d well-formed files of the reflds enumeration over the 14 file kinds (bounds as in C19) at the file's constructor, json.Marshal of the result and tlv String(); every DG14 also as the DG14 of a Chip Authentication session (chipauth.VerifyEvidence) and of a document (Document.Verify, PassiveAuth, Summary), every CardAccess / CardSecurity / DG15 through the verifier that consumes it", total))
 }
 
 // capFor gives the number of swept positions of a seed at an entry point in the quick tier (0 = every position).
@@ -166,28 +220,32 @@ func capFor(seed, en string, n int, pipe bool) int {
 	}
 	switch {
 	case strings.HasPrefix(en, "json("):
-		return clamp(60000/(n+1), 64, 512)
+		return clamp(40000/(n+1), 48, 384)
 	case en == "tlv.Decode+String" || en == "tlv.DecodeEncode":
 		return clamp(60000/(n+1), 64, 2048) // String() of a whole file costs time proportional to its size
 	case strings.HasPrefix(en, "mobile.Verifier.Verify/file"):
-		return 24 // 3 ms per call (passive authentication against the built-in master lists)
-	case strings.HasPrefix(en, "mobile."), strings.HasPrefix(en, "verifier.Verify["), strings.Contains(en, "/docex"), strings.Contains(en, "/rawdoc"):
+		return 12 // 3..7 ms per call (passive authentication against the built-in master lists)
+	case strings.Contains(en, "/rawdoc"):
+		return 96
+	case strings.HasPrefix(en, "mobile."), strings.HasPrefix(en, "verifier.Verify["), strings.Contains(en, "/docex"):
 		return 160
 	case strings.HasPrefix(en, "verifier.Verify/bundle"):
 		if strings.Contains(seed, "evidence=+cam+ca+aa") {
 			return 320
 		}
-		return 64
-	case strings.HasPrefix(en, "verifier.Verify/file:sod"), strings.HasPrefix(en, "verifier.Verify/file:cardSecurity"), strings.Contains(seed, "explicit") && pipe:
+		return 24 // the evidence verifiers see every position of every subset directly (VerifyEvidence/bundle)
+	case strings.Contains(seed, "explicit") && pipe:
+		return 96 // generic-curve arithmetic, about 1 ms per call
+	case strings.HasPrefix(en, "verifier.Verify/file:sod"), strings.HasPrefix(en, "verifier.Verify/file:cardSecurity"):
 		return 160 // the same files are swept at every position through PassiveAuth / pace.VerifyEvidence directly
 	case pipe:
-		return 320
+		return 256
 	case en == "document.Document.NewDG":
 		return 512 // same code as the file's own constructor, which sweeps every position
 	case strings.Contains(seed, "/SOD-") || strings.Contains(seed, "/pss/") || strings.Contains(seed, "var/SOD"):
 		return 640
 	}
-	return 2048
+	return 1536
 }
 
 // section2: every position x every byte value, every truncation, every one-byte extension of every seed.
@@ -200,7 +258,7 @@ func (r *runner) section2(co *corpusT) {
 	defer func() {
 		bound := fmt.Sprintf("%d seeds; each seed x each of its entry points x (every position x all 256 byte values, every truncation length, extension by each byte value); a file constructor that returns a value is followed by json.Marshal of that value", nSeeds)
 		if len(strided) > 0 {
-			bound += fmt.Sprintf("; the quick tier strides %d large or costly seed/entry-point pairs (first 64 positions + every k-th, all 256 values there; listed under strided_in_quick)", len(strided))
+			bound += fmt.Sprintf("; the quick tier strides %d large or costly seed/entry-point pairs (a head of up to 64 positions + every k-th, all 256 values there; listed under strided_in_quick)", len(strided))
 			if c.Shard == 0 {
 				c.Extra("strided_in_quick", strided)
 			}
@@ -237,10 +295,18 @@ func (r *runner) section2(co *corpusT) {
 			}
 			if c.Quick() {
 				limit = capFor(s.Name, en, len(s.B), t.pipe)
+			} else if t.pipe {
+				// thorough sweeps every position, except through the two kinds of pipeline that cost 3..10 ms per call
+				switch {
+				case strings.HasPrefix(en, "mobile.Verifier.Verify/file"):
+					limit = 200
+				case strings.HasSuffix(en, "bp]") || strings.HasSuffix(en, "[ca3]"):
+					limit = 96 // verification on 256..384-bit curves with generic arithmetic
+				}
 			}
 			ps, stride := positions(len(s.B), limit)
 			if stride > 1 {
-				strided = append(strided, fmt.Sprintf("%s @ %s: %d bytes, first 64 positions + every %d-th", s.Name, en, len(s.B), stride))
+				strided = append(strided, fmt.Sprintf("%s @ %s: %d bytes, first positions + every %d-th", s.Name, en, len(s.B), stride))
 			}
 			class := "mutation:" + s.Name
 			for _, p := range ps {
